@@ -12,22 +12,39 @@ package alpine
 
 //@ func compareLetters
 //@   comparator a ~ b                                     [C01]
+//@   ensures none-first: a == "" && b != "" ==> result == -1                         [C14]
+//@   ensures none-first-r: a != "" && b == "" ==> result == 1                         [C14]
+//@   ensures both-none: a == "" && b == "" ==> result == 0                             [C14]
+//@   ensures letters: a != "" && b != "" ==> result == (a == b ? 0 : (a < b ? -1 : 1))   [C14]
+
+// rank of a suffix name: alpha < beta < pre < rc < (none) < cvs < svn < git < hg < p; unknown names last
+//@ spec rankOf(n string) int = has(suffixOrder, n) ? suffixOrder[n] : 1000
 
 //@ func compareSuffixes
 //@   comparator a ~ b                                     [C01]
 //@   ensures no-suffix-is-distinct: (a.name == "") != (b.name == "") ==> result != 0   [C01]
+//@   ensures rank: rankOf(a.name) != rankOf(b.name) ==> result == (rankOf(a.name) < rankOf(b.name) ? -1 : 1)   [C14]
+//@   ensures number: rankOf(a.name) == rankOf(b.name) && has(suffixOrder, a.name) ==> result == (a.number < b.number ? -1 : (a.number > b.number ? 1 : 0))   [C14]
 
 // Parsed suffixes always carry a name ([a-z]+), so the empty name only stands for "no suffix".
 //@ spec namedSuffixes(a []suffix) bool = forall i int :: 0 <= i && i < len(a) ==> a[i].name != ""
 
+// "no suffix" (a release) as a suffix value
+//@ spec noSuffix() suffix = mk(suffix, "", 0)
+
 //@ func compareSuffixArrays
 //@   comparator a ~ b where namedSuffixes(a) && namedSuffixes(b)   [C01]
+//@   ensures first-difference: forall k int :: 0 <= k && k < len(a) && k < len(b) && (forall j int :: 0 <= j && j < k ==> compareSuffixes(a[j], b[j]) == 0) && compareSuffixes(a[k], b[k]) != 0 ==> result == compareSuffixes(a[k], b[k])   [C14]
+//@   ensures extra-suffix: len(a) > len(b) && (forall j int :: 0 <= j && j < len(b) ==> compareSuffixes(a[j], b[j]) == 0) ==> result == compareSuffixes(a[len(b)], noSuffix())   [C14]   // an additional pre-release suffix is older, an additional post-release suffix newer
+//@   ensures extra-suffix-r: len(b) > len(a) && (forall j int :: 0 <= j && j < len(a) ==> compareSuffixes(a[j], b[j]) == 0) ==> result == compareSuffixes(noSuffix(), b[len(a)])   [C14]
+//@   ensures equal: len(a) == len(b) && (forall j int :: 0 <= j && j < len(a) ==> compareSuffixes(a[j], b[j]) == 0) ==> result == 0   [C14]
 
 //@ func hasLeadingZero
 //@   ensures result == (len(s) > 1 && s[0] == '0')
 
 // Parsed components: the text is a digit string and the value is its number.
 //@ spec wfComp(c numericComponent) bool = isdigits(c.originalStr) && c.value == numval(c.originalStr)
+//@ spec noLeadingZeros(a []numericComponent) bool = forall i int :: 0 <= i && i < len(a) ==> !(len(a[i].originalStr) > 1 && a[i].originalStr[0] == 48)
 //@ spec wfNums(a []numericComponent) bool = strlex() && (forall i int :: 0 <= i && i < len(a) ==> wfComp(a[i]))
 
 // The leading-zero rule mixes numeric and textual comparison per component; the SMT proof of its transitivity
@@ -36,12 +53,18 @@ package alpine
 //@ func compareNumericArraysNumeric
 //@   bounded alphabet "019." maxlen 5
 //@   comparator a ~ b where wfNums(a) && wfNums(b)         [C01]
+//@   ensures first-difference: len(a) == len(b) && noLeadingZeros(a) && noLeadingZeros(b) ==> (forall k int :: 0 <= k && k < len(a) && (forall j int :: 0 <= j && j < k ==> a[j].value == b[j].value) && a[k].value != b[k].value ==> result == (a[k].value < b[k].value ? -1 : 1))   [C14]
+//@   ensures all-equal: len(a) == len(b) && noLeadingZeros(a) && noLeadingZeros(b) && (forall j int :: 0 <= j && j < len(a) ==> a[j].value == b[j].value) ==> result == 0   [C14]
 
 // Data invariant of parsed versions (established by NewVersion, see below).
 //@ spec wf(v *Version) bool = wfNums(v.numeric) && namedSuffixes(v.suffixes)
 
 //@ func (*Version).Compare
 //@   comparator v ~ other where wf(v) && wf(other)        [C01]
+//@   ensures numeric: v.numeric != nil && other.numeric != nil && compareNumericArraysNumeric(v.numeric, other.numeric) != 0 ==> result == compareNumericArraysNumeric(v.numeric, other.numeric)   [C14]
+//@   ensures letter: v.numeric != nil && other.numeric != nil && compareNumericArraysNumeric(v.numeric, other.numeric) == 0 && compareLetters(v.letter, other.letter) != 0 ==> result == compareLetters(v.letter, other.letter)   [C14]
+//@   ensures suffixes: v.numeric != nil && other.numeric != nil && compareNumericArraysNumeric(v.numeric, other.numeric) == 0 && compareLetters(v.letter, other.letter) == 0 && compareSuffixArrays(v.suffixes, other.suffixes) != 0 ==> result == compareSuffixArrays(v.suffixes, other.suffixes)   [C14]
+//@   ensures revision: v.numeric != nil && other.numeric != nil && compareNumericArraysNumeric(v.numeric, other.numeric) == 0 && compareLetters(v.letter, other.letter) == 0 && compareSuffixArrays(v.suffixes, other.suffixes) == 0 && v.hash == other.hash ==> result == (v.build < other.build ? -1 : (v.build > other.build ? 1 : 0))   [C14]
 
 // ---- constructors: value xor error (C06); the fact is structural (untagged) because callers rely on it
 
